@@ -1,8 +1,8 @@
 //! C11 / C04 — authority editing changes one sub-component and keeps its
 //! handle coherent (invariant I: the handle views exactly the authority a
 //! fresh `authority()` returns).
-use crate::oracle::{comps_of, recompose_with, split_auth, split_ref, Out};
-use crate::sym::{any_bool, any_u8, as_str, assume, bytes_eq, vec_of, Text};
+use crate::oracle::{comps_of, concat_eq, split_auth, split_ref};
+use crate::sym::{any_bool, any_u8, as_str, assume, bytes_eq, vec_cap, vec_of, Text};
 use crate::{cover, tables};
 use iref_core::{iri, uri, IriRefBuf, UriRefBuf};
 use std::mem::forget;
@@ -11,8 +11,10 @@ pub const USERINFO: u8 = 0;
 pub const HOST: u8 = 1;
 pub const PORT: u8 = 2;
 
-/// `[ userinfo "@" ] host [ ":" port ]` with one part replaced.
-fn expected_authority(a: &[u8], op: u8, new: Option<&[u8]>) -> Out {
+/// `out` is `b` with the authority `b[a0..a1]` replaced by
+/// `[ userinfo "@" ] host [ ":" port ]` where exactly one part is replaced.
+fn is_expected(out: &[u8], b: &[u8], a0: usize, a1: usize, op: u8, new: Option<&[u8]>) -> bool {
+    let a = &b[a0..a1];
     let s = split_auth(a);
     let mut ui = s.user_info.map(|(x, e)| &a[x..e]);
     let mut host = &a[s.host.0..s.host.1];
@@ -22,23 +24,15 @@ fn expected_authority(a: &[u8], op: u8, new: Option<&[u8]>) -> Out {
         HOST => host = new.unwrap_or(b""),
         _ => port = new,
     }
-    let mut o = Out::new();
-    if let Some(u) = ui {
-        o.extend(u);
-        o.push(b'@');
-    }
-    o.extend(host);
-    if let Some(p) = port {
-        o.push(b':');
-        o.extend(p);
-    }
-    o
+    let e: &[u8] = b"";
+    let pieces: [&[u8]; 7] = [&b[..a0], ui.unwrap_or(e), if ui.is_some() { b"@" } else { e }, host, if port.is_some() { b":" } else { e }, port.unwrap_or(e), &b[a1..]];
+    concat_eq(out, &pieces)
 }
 
 fn arg_valid(op: u8, a: &[u8]) -> bool {
     match op {
         USERINFO => uri::UserInfo::new(a).is_ok(),
-        HOST => tables::t_uri_host_valid(a),
+        HOST => tables::t_uri_host_valid_k(a, 4),
         _ => uri::Port::new(a).is_ok(),
     }
 }
@@ -57,7 +51,7 @@ macro_rules! apply {
 fn one_op<const OP: u8, const N: usize, const M: usize>() {
     let t = Text::<N>::any();
     let b = t.bytes();
-    assume(tables::t_uri_uriref_valid(b));
+    assume(tables::t_uri_uriref_valid_k(b, N));
     let before = split_ref(b);
     assume(before.authority.is_some());
     let cb = comps_of(b, &before);
@@ -67,12 +61,9 @@ fn one_op<const OP: u8, const N: usize, const M: usize>() {
     if some {
         assume(arg_valid(OP, arg));
     }
-    let new_auth = expected_authority(cb.authority.unwrap(), OP, if some { Some(arg) } else { None });
-    let mut cw = cb;
-    cw.authority = Some(new_auth.bytes());
-    let want = recompose_with(&cw, false);
+    let (a0, a1) = before.authority.unwrap();
 
-    let mut x = unsafe { UriRefBuf::new_unchecked(vec_of(b)) };
+    let mut x = unsafe { UriRefBuf::new_unchecked(vec_cap::<12>(b)) };
     let (hp, hl) = {
         let mut am = x.authority_mut().unwrap();
         apply!(am, OP, some, arg);
@@ -80,8 +71,8 @@ fn one_op<const OP: u8, const N: usize, const M: usize>() {
         (v.as_ptr(), v.len())
     };
     let out = x.as_bytes();
-    assert!(tables::t_uri_uriref_valid(out), "C04: the buffer is no longer a valid URI reference after the authority edit");
-    assert!(bytes_eq(out, want.bytes()), "C11: the edit did not change exactly that sub-component");
+    assert!(is_expected(out, b, a0, a1, OP, if some { Some(arg) } else { None }), "C11: the edit did not change exactly that sub-component");
+    assert!(tables::t_uri_uriref_valid_k(out, N + M + 3), "C04: the buffer is no longer a valid URI reference after the authority edit");
     let fresh = x.authority().unwrap().as_bytes();
     assert!(hp == fresh.as_ptr() && hl == fresh.len(), "C11: after the call the handle does not view exactly the new authority");
     cover!(some && out.len() > b.len(), "longer replacement");
@@ -90,64 +81,64 @@ fn one_op<const OP: u8, const N: usize, const M: usize>() {
     forget(x);
 }
 
-// @h prop=C11,C04 tier=quick kind=check timeout=2400 mem=16 bound="UriRefBuf with authority, text <= 8 bytes, user info <= 2 bytes or removal" encodes="RiRefBufImpl::authority_mut;AuthorityMutImpl::{set_userinfo,as_authority};parse::find_user_info;utils::{replace,allocate_range}"
+// @h prop=C11,C04 tier=quick kind=check timeout=2400 mem=20 bound="UriRefBuf with authority, text <= 4 bytes, user info <= 2 bytes or removal" encodes="RiRefBufImpl::authority_mut;AuthorityMutImpl::{set_userinfo,as_authority};parse::find_user_info;utils::{replace,allocate_range}"
 #[cfg_attr(kani, kani::proof)]
-#[cfg_attr(kani, kani::unwind(15))]
+#[cfg_attr(kani, kani::unwind(11))]
 #[cfg_attr(kani, kani::stub(std::vec::Vec::resize, crate::stubs::vec_resize))]
-pub fn c11_set_userinfo_n8() {
-    one_op::<USERINFO, 8, 2>()
+pub fn c11_set_userinfo_n4() {
+    one_op::<USERINFO, 4, 2>()
 }
 
-// @h prop=C11,C04 tier=quick kind=check timeout=2400 mem=16 bound="UriRefBuf with authority, text <= 8 bytes, host <= 3 bytes" encodes="AuthorityMutImpl::{set_host,as_authority};parse::find_host;utils::replace"
+// @h prop=C11,C04 tier=thorough kind=check timeout=3600 mem=34 bound="UriRefBuf with authority, text <= 6 bytes, user info <= 2 bytes or removal" encodes="RiRefBufImpl::authority_mut;AuthorityMutImpl::{set_userinfo,as_authority};parse::find_user_info;utils::{replace,allocate_range}"
 #[cfg_attr(kani, kani::proof)]
-#[cfg_attr(kani, kani::unwind(15))]
+#[cfg_attr(kani, kani::unwind(13))]
 #[cfg_attr(kani, kani::stub(std::vec::Vec::resize, crate::stubs::vec_resize))]
-pub fn c11_set_host_n8() {
-    one_op::<HOST, 8, 3>()
+pub fn c11_set_userinfo_n6() {
+    one_op::<USERINFO, 6, 2>()
 }
 
-// @h prop=C11,C04 tier=quick kind=check timeout=2400 mem=16 bound="UriRefBuf with authority, text <= 8 bytes, port <= 2 bytes or removal" encodes="AuthorityMutImpl::{set_port,as_authority};parse::find_port;utils::{replace,allocate_range}"
+// @h prop=C11,C04 tier=quick kind=check timeout=2400 mem=20 bound="UriRefBuf with authority, text <= 4 bytes, host <= 2 bytes" encodes="AuthorityMutImpl::{set_host,as_authority};parse::find_host;utils::replace"
 #[cfg_attr(kani, kani::proof)]
-#[cfg_attr(kani, kani::unwind(15))]
+#[cfg_attr(kani, kani::unwind(11))]
 #[cfg_attr(kani, kani::stub(std::vec::Vec::resize, crate::stubs::vec_resize))]
-pub fn c11_set_port_n8() {
-    one_op::<PORT, 8, 2>()
+pub fn c11_set_host_n4() {
+    one_op::<HOST, 4, 2>()
 }
 
-// @h prop=C11,C04 tier=thorough kind=check timeout=3000 mem=20 bound="UriRefBuf with authority, text <= 10 bytes, user info <= 3 bytes or removal" encodes="same as c11_set_userinfo_n8"
+// @h prop=C11,C04 tier=thorough kind=check timeout=3600 mem=34 bound="UriRefBuf with authority, text <= 6 bytes, host <= 2 bytes" encodes="AuthorityMutImpl::{set_host,as_authority};parse::find_host;utils::replace"
 #[cfg_attr(kani, kani::proof)]
-#[cfg_attr(kani, kani::unwind(18))]
+#[cfg_attr(kani, kani::unwind(13))]
 #[cfg_attr(kani, kani::stub(std::vec::Vec::resize, crate::stubs::vec_resize))]
-pub fn c11_set_userinfo_n10() {
-    one_op::<USERINFO, 10, 3>()
+pub fn c11_set_host_n6() {
+    one_op::<HOST, 6, 2>()
 }
 
-// @h prop=C11,C04 tier=thorough kind=check timeout=3000 mem=20 bound="UriRefBuf with authority, text <= 10 bytes, host <= 4 bytes ([::] fits)" encodes="same as c11_set_host_n8"
+// @h prop=C11,C04:thorough tier=quick kind=check timeout=2400 mem=20 bound="UriRefBuf with authority, text <= 4 bytes, port <= 2 bytes or removal" encodes="AuthorityMutImpl::{set_port,as_authority};parse::find_port;utils::{replace,allocate_range}"
 #[cfg_attr(kani, kani::proof)]
-#[cfg_attr(kani, kani::unwind(19))]
+#[cfg_attr(kani, kani::unwind(11))]
 #[cfg_attr(kani, kani::stub(std::vec::Vec::resize, crate::stubs::vec_resize))]
-pub fn c11_set_host_n10() {
-    one_op::<HOST, 10, 4>()
+pub fn c11_set_port_n4() {
+    one_op::<PORT, 4, 2>()
 }
 
-// @h prop=C11,C04 tier=thorough kind=check timeout=3000 mem=20 bound="UriRefBuf with authority, text <= 10 bytes, port <= 3 bytes or removal" encodes="same as c11_set_port_n8"
+// @h prop=C11,C04 tier=thorough kind=check timeout=3600 mem=34 bound="UriRefBuf with authority, text <= 6 bytes, port <= 2 bytes or removal" encodes="AuthorityMutImpl::{set_port,as_authority};parse::find_port;utils::{replace,allocate_range}"
 #[cfg_attr(kani, kani::proof)]
-#[cfg_attr(kani, kani::unwind(18))]
+#[cfg_attr(kani, kani::unwind(13))]
 #[cfg_attr(kani, kani::stub(std::vec::Vec::resize, crate::stubs::vec_resize))]
-pub fn c11_set_port_n10() {
-    one_op::<PORT, 10, 3>()
+pub fn c11_set_port_n6() {
+    one_op::<PORT, 6, 2>()
 }
 
-/// Two edits through ONE handle, ops chosen symbolically: the result equals
-/// applying the two edits to the oracle authority in turn, and the handle
-/// still views the authority.
+/// Two edits through ONE handle, ops chosen symbolically, give exactly what the
+/// same two edits give through two FRESH handles (whose single steps are
+/// decided against the section 3.2 oracle above), and the handle still views
+/// exactly the authority.
 fn two_ops<const N: usize, const M: usize>() {
     let t = Text::<N>::any();
     let b = t.bytes();
-    assume(tables::t_uri_uriref_valid(b));
+    assume(tables::t_uri_uriref_valid_k(b, N));
     let before = split_ref(b);
     assume(before.authority.is_some());
-    let cb = comps_of(b, &before);
     let op1 = any_u8() % 3;
     let op2 = any_u8() % 3;
     let a1 = Text::<M>::any();
@@ -160,11 +151,17 @@ fn two_ops<const N: usize, const M: usize>() {
     if s2 {
         assume(arg_valid(op2, a2.bytes()));
     }
-    let e1 = expected_authority(cb.authority.unwrap(), op1, if s1 { Some(a1.bytes()) } else { None });
-    let e2 = expected_authority(e1.bytes(), op2, if s2 { Some(a2.bytes()) } else { None });
-    let mut cw = cb;
-    cw.authority = Some(e2.bytes());
-    let want = recompose_with(&cw, false);
+    // reference: a fresh handle per edit
+    let mut y = unsafe { UriRefBuf::new_unchecked(vec_of(b)) };
+    {
+        let mut am = y.authority_mut().unwrap();
+        apply!(am, op1, s1, a1.bytes());
+    }
+    {
+        let mut am = y.authority_mut().unwrap();
+        apply!(am, op2, s2, a2.bytes());
+    }
+    // subject: both edits through one handle
     let mut x = unsafe { UriRefBuf::new_unchecked(vec_of(b)) };
     let (hp, hl) = {
         let mut am = x.authority_mut().unwrap();
@@ -173,20 +170,19 @@ fn two_ops<const N: usize, const M: usize>() {
         let v = am.as_authority().as_bytes();
         (v.as_ptr(), v.len())
     };
-    let out = x.as_bytes();
-    assert!(tables::t_uri_uriref_valid(out), "C04: invalid after two edits through one authority handle");
-    assert!(bytes_eq(out, want.bytes()), "C11: two edits through one handle differ from two edits through fresh handles");
+    assert!(bytes_eq(x.as_bytes(), y.as_bytes()), "C11: two edits through one handle differ from the same edits through fresh handles");
     let fresh = x.authority().unwrap().as_bytes();
     assert!(hp == fresh.as_ptr() && hl == fresh.len(), "C11: the handle lost track of the authority after two edits");
     cover!(op1 != op2, "two different sub-components");
     cover!(op1 == HOST && op2 == PORT && s2, "host then port");
     forget(x);
+    forget(y);
 }
 
-// @h prop=C11,C04 tier=thorough kind=check timeout=5400 mem=24 bound="UriRefBuf with authority, text <= 7 bytes, two symbolic ops through one handle, arguments <= 2 bytes" encodes="AuthorityMutImpl::{set_userinfo,set_host,set_port} in sequence on one handle (start/end bookkeeping)"
+// @h prop=C11,C04 tier=thorough kind=check timeout=5400 mem=24 bound="UriRefBuf with authority, text <= 6 bytes, two symbolic ops through one handle, arguments <= 2 bytes" encodes="AuthorityMutImpl::{set_userinfo,set_host,set_port} in sequence on one handle (start/end bookkeeping)"
 #[cfg_attr(kani, kani::proof)]
 #[cfg_attr(kani, kani::unwind(17))]
 #[cfg_attr(kani, kani::stub(std::vec::Vec::resize, crate::stubs::vec_resize))]
-pub fn c11_two_ops_n7() {
-    two_ops::<7, 2>()
+pub fn c11_two_ops_n6() {
+    two_ops::<6, 2>()
 }
